@@ -3,6 +3,6 @@ CONSTANTS
   Script <- ScriptQ
   Thresh = 1
   MaxLow = 1
-INVARIANTS ExecAtMostOnce ExecOnlyAccepted NoLostWakeup HighPrioFIFO EdgeImpliesFlag CountersLag
+INVARIANTS ExecAtMostOnce ExecOnlyAccepted NoLostWakeup HighPrioFIFO EdgeImpliesFlag CountersLag FlagMeansWake ClearMeansSeen
 PROPERTIES EventuallyAllRun
 CHECK_DEADLOCK FALSE
